@@ -2,8 +2,8 @@
 """Regenerates MANIFEST.json from the table below (kept valid at all times)."""
 import json
 CLAIMED = {
- "C07": dict(text="Deductive proof, for all offsets/intervals/tick vectors/positions/modes, that index_of / range_indices / position_at / "
-                  "tick_at / axis of the three dimension descriptors return the order-theoretic answers (last sample <= / < p, first >= p; "
+ "C07": dict(text="Deductive proof, for all offsets/intervals/tick vectors/positions/modes, that index_of / range_indices of the three dimension "
+                  "descriptors, position_at, tick_at and the range descriptor's axis return the order-theoretic answers (last sample <= / < p, first >= p; "
                   "IndexError exactly when none), in scaled coordinates with numpy's isclose band as a don't-care zone, plus SMT lemmas "
                   "linking scaled coordinates to sample positions.",
              note="Trusted: floats as reals; numpy isclose/round/floor/where/searchsorted specs; ticks/labels getters summarised "
